@@ -218,7 +218,13 @@ def gen_plan(rng, size):
         if rng.random() < 0.4:
             target_dirs.append(rng.choice(["d/", "nodir/"]))
         targets = pick
-    npost = rng.randint(0, 2 + nstep)
+    clean = rng.random() < 0.15
+    if clean:
+        # a build in which everything that ran succeeded (exit status 0 unless a glob/target objects)
+        for op in list(ops):
+            if op[0] == "step" and not any(p in missing + undecl for p in op[3]) and "ghost" not in op[6]:
+                ops.append(("succeed", op[1]))
+    npost = 0 if clean else rng.randint(0, 2 + nstep)
     for _ in range(npost):
         r = rng.random()
         s = rng.choice(steps)
@@ -594,7 +600,8 @@ def correspondence(ctx):
     checks, index = [], []
     for k, (plan, obs) in enumerate(results):
         for a in obs["applied"]:
-            ctx.count("op:" + a.split(":")[0] + (":rejected" if a.startswith("rejected") else ""))
+            parts = a.split(":")
+            ctx.count("op:" + (parts[1] + ":rejected:" + parts[2] if parts[0] == "rejected" else parts[0]))
         if obs["error"] is not None:
             ctx.add_failure("correspondence", "analyze_pending-raises",
                             f"analyze_pending:raises:{obs['error'].split(':')[0]}",
@@ -649,6 +656,10 @@ def oracle_case(ctx, plan, obs, tag=None):
         return fails
     # --- recomputed from the database dump, independent of pending.py
     pend, succ_required, failed_attached = [], True, 0
+    # report_unbuilt runs after job_loop returned: nothing is RUNNING or CHECKING then.  Graphs that
+    # contain such steps (built to exercise the hold arm of the ancestor walk) are outside that
+    # precondition; for them "zero means every required step succeeded" is not demanded.
+    stopped = all(st[2] not in (22, 25) for st in sn["steps"])
     for i, label, state, ineed, det, *_ in sn["steps"]:
         if state == 24 and not det:
             failed_attached += 1
@@ -734,7 +745,7 @@ def oracle_case(ctx, plan, obs, tag=None):
             fails.append(("returncode:glob-error-without-FAILED-bit", f"rc=0 with {glob_err}"))
     if rc == 0:
         why = []
-        if not succ_required:
+        if not succ_required and stopped:
             why.append("a required step is not SUCCEEDED")
         if failed_attached:
             why.append("FAILED step")
@@ -745,7 +756,7 @@ def oracle_case(ctx, plan, obs, tag=None):
         if obs["draining"]:
             why.append("draining")
         if why:
-            fails.append(("returncode:zero-but-" + why[0].split(" ")[0], f"rc=0 although {why}"))
+            fails.append(("returncode:zero-but-" + why[0].replace(" ", "-")[:40], f"rc=0 although {why}"))
     if has("INTERNAL") or has("INTERRUPTED"):
         fails.append(("returncode:foreign-bit", f"rc={obs['rc_name']}"))
     return fails
